@@ -117,6 +117,29 @@ def checkRule (ir : ProgIR) (gmap : Nat → Nat) (r : RuleIR) (action constraint
   | some nodes =>
     let segs := Chk.splitItems nodes
     let modItems := ((r.items.drop pre).take (limMod - pre))
+    -- where the scan goes on: the action returns the number of slots to move from the slot after the last item it
+    -- handled; `^` before item c means "go on at the slot that item c occupies afterwards". Each item that is not
+    -- deleted leaves one slot, so the value is  #kept(items before c) - #kept(items the action handled).
+    let insL : List Ins := nodes.filterMap fun n => match n with | .ins i => some i | _ => none
+    let returned : Option Int :=
+      match insL.reverse with
+      | last :: prev :: _ =>
+        if last.op = kopRetZero then some 0
+        else if last.op = kopPopRet ∧ prev.op = kopPushByte then
+          (prev.args.head?).map fun b => if b ≥ 128 then (b : Int) - 256 else (b : Int)
+        else none
+      | [last] => if last.op = kopRetZero then some 0 else none
+      | [] => none
+    let kept (k : Nat) : Int := (((r.items.take k).filter fun it => it.out != some .del).length : Int)
+    let handled := pre + segs.length
+    let wantRet : Int := match r.caret with
+      | some c => kept c - kept handled
+      | none => kept limMod - kept handled
+    match returned with
+    | none => out := out ++ ["action does not end in ret_zero or push_byte n; pop_ret"]
+    | some v =>
+      if v != wantRet then
+        out := out ++ [s!"scan position: the action returns {v}; `^` (item {r.caret}) after an action over items {pre + 1}..{handled} asks for {wantRet}"]
     if segs.length < modItems.length then
       out := out ++ [s!"action has {segs.length} item segments, rule has {modItems.length} items from first to last modified"]
     else
